@@ -49,7 +49,7 @@ pub struct MWorld {
 }
 
 pub fn create_miner(v: &Mvm, owner: &Address, worker: &Address, proof: RegisteredPoStProof) -> Address {
-    let dep = fil_actors_integration_tests::util::create_miner_deposit_for_test(v);
+    let dep = crate::world::create_miner_deposit(v);
     let p = fil_actor_power::CreateMinerParams {
         owner: *owner,
         worker: *worker,
